@@ -186,10 +186,10 @@ def run_shard(job):
                 return
             state['xre'] += 1
             if fails:
-                state['xre_bad'].append({'why': 'concrete run fails a check the solver discharged: %r' % (fails[:2],),
+                state['xre_bad'].append({'harness': hname, 'params': params, 'why': 'concrete run fails a check the solver discharged: %r' % (fails[:2],),
                                          'inputs': [(k, _enc(v)) for k, v in inputs], 'choices': list(e.choices)})
             elif not _same_trace(sym_obs, ctrace):
-                state['xre_bad'].append({'why': 'observation logs differ', 'sym': repr(sym_obs)[:2000], 'conc': repr(ctrace)[:2000],
+                state['xre_bad'].append({'harness': hname, 'params': params, 'why': 'observation logs differ', 'sym': repr(sym_obs)[:2000], 'conc': repr(ctrace)[:2000],
                                          'inputs': [(k, _enc(v)) for k, v in inputs], 'choices': list(e.choices)})
 
     # path_violated: set when a violation was recorded on the current path
